@@ -330,6 +330,12 @@ Definition mk_cmap (rsh : list nat) (rots : list rotation) (pid : list Z) (x y :
   end.
 
 (* Rotation.from_euler(np.dstack((phi1, Phi, phi2)).squeeze()) *)
+Fixpoint shape_eqb' (a b : list nat) : bool :=
+  match a, b with
+  | [], [] => true
+  | x :: a', y :: b' => (x =? y)%nat && shape_eqb' a' b'
+  | _, _ => false
+  end.
 Definition squeeze (sh : list nat) : list nat := filter (fun d => negb (d =? 1)%nat) sh.
 Fixpoint zip3 (a b c : list T) : list (vec3 (T:=T)) :=
   match a, b, c with
@@ -346,6 +352,8 @@ Definition dict2crystalmap (v : rv T) : option cmap :=
       | Some a1, Some a2, Some a3 =>
         match a_d a1, a_d a2, a_d a3 with
         | DF e1, DF e2, DF e3 =>
+          (* np.dstack raises ValueError unless the three arrays have one shape *)
+          if negb (shape_eqb' (a_sh a1) (a_sh a2) && shape_eqb' (a_sh a1) (a_sh a3)) then None else
           let rsh := squeeze (a_sh a1) in
           let rots := map (fun e => (eu2qu O e, false)) (zip3 e1 e2 e3) in
           match getS header "scan_unit", getD header "phases" with
